@@ -818,7 +818,7 @@ def post_c07(ctx, parsed, res, safety_only=False):
                 if ts.state == "CANCELLED" and taken_done and not safety_only and \
                         not _cancelled_by_policy(ctx, graph):
                     ctx.violate("C07", "join_cancelled", f"{ts.uname} cancelled although the taken branch "
-                                f"{taken} completed", {})
+                                f"{taken} completed", {"graph_has_arm_only_sink": _has_arm_only_sink(ctx, base)})
                 if ts.starts > 0:
                     # must start after the taken branch completed
                     feeders = [p for p in ctx.parents[base][term] if p in taken_nodes or p == taken]
